@@ -43,7 +43,7 @@ def plan(tier, seed):
         for genome in ("hg19", "hg38"):
             cases.append({"kind": "shipped", "gene": g, "genome": genome,
                           "realign": tier == "thorough" and g in ("cyp2d6", "cyp2a6", "cyp2c19", "ugt1a1", "tpmt")})
-    n = 40 if tier == "quick" else 1200
+    n = 160 if tier == "quick" else 2400
     for k in range(n):
         cases.append({"kind": "gen", "seed": seed, "k": k})
     return cases
